@@ -121,7 +121,7 @@ def stream_part():
     hs = [Harness("c03s_%s_%d" % (k, n), "e1", unwind=n + 2, timeout=300, clause="%s stream with %d inputs: newest contributing timestamp / newest candidate" % (k, n)) for k, n in pairs]
     hs += [Harness("c03s_binary", "e1", unwind=4, clause="Sum2/Product2/Difference/Quotient: newest timestamp of the present operands"),
            Harness("c03s_logic", "e1", clause="And/Or/Not: newest timestamp of the present inputs"),
-           Harness("c03s_terminal_reads", "e2", tolerant=False, skeletons=list(itertools.product([0, 1], repeat=5)), clause="terminal state averaging / command selection timestamps")]
+           Harness("c03s_terminal_reads", "e2", timeout=300, tolerant=False, skeletons=list(itertools.product([0, 1], repeat=5)), clause="terminal state averaging / command selection timestamps")]
     return {"variant": "streams", "rust": rust, "harnesses": hs, "stubbing": True}
 
 
